@@ -77,6 +77,14 @@ def run_fault_case(prog, params):
             findings = []
             sr = ScriptRunner(ex)
             t, ctls, lowers = build(sr, u, config, state)
+            # fault-free pre-history (e.g. removals that leave overlay markers behind); the model follows the contract
+            for (pop, pv) in params.get('pre', ()):
+                pe = contract(t, pop, pv)
+                sr.do('%s %s' % (pop, pv))
+                if pe.status == 'ok' and sr.last.ok:
+                    t = pe.tree
+                elif not (pe.status == 'err' and not sr.last.ok):
+                    raise Infeasible()       # this pre-history is not a contract-conforming one: other checks report it
             data = None
             if op in ('write', 'append'):
                 sr.syms['wdata'] = sym_content(ex, 1, 'wdata')
@@ -97,7 +105,7 @@ def run_fault_case(prog, params):
                 return findings
             fired = sr.ctls[arm[0]].fired
             sr.do('disarm %s' % arm[0])
-            key = '%s|%s|%s|fault@%s' % (config, op, target_class(t, v), 'upper' if arm[0] == 'l0' else ('lower' if arm[0] == 'l1' else 'underlying'))
+            key = '%s%s|%s|%s|fault@%s' % (config, ('+after:' + '+'.join(p_[0] for p_ in params['pre'])) if params.get('pre') else '', op, target_class(t, v), 'upper' if arm[0] == 'l0' else ('lower' if arm[0] == 'l1' else 'underlying'))
             if not fired:
                 return findings
             if o.tag in ('panic', 'deadlock'):
